@@ -16,7 +16,7 @@ import (
 func init() {
 	register(&Prop{
 		ID: "C14", Level: "fault_enumeration",
-		Rule: "one case = a generated history of 1-7 calls on the Context's ResponseWriter from {WriteHeader (final, informational 1xx, 101, repeated), Write, WriteString, ReadFrom, FlushError, Push, SetReadDeadline, SetWriteDeadline, EnableFullDuplex, Hijack, Context.String/Blob/Stream/Redirect} executed by a real route handler behind ServeHTTP over a simulated connection whose capability set is drawn from {ReaderFrom, Flusher|FlushError, Hijacker+Pusher+deadlines+full duplex}; for each history the byte position at which the connection starts failing is enumerated over every byte boundary (and no failure), and the failure position of the ReadFrom/Stream source likewise; after every call Status/Size/Written are compared with the connection's own log (first final status received, bytes accepted, final header or byte received), return values with the bytes accepted during the call, and the whole run is repeated with ReaderFrom toggled (answers must not depend on the fast path). Connection invariants: at most one final header, none after body bytes, bytes in order. Non-trivial: the history wrote body bytes and at least one enumerated fault fired inside it; distinct = hash of (history, capabilities).",
+		Rule: "one case = a generated history of 1-7 calls on the Context's ResponseWriter from {WriteHeader (final, informational 1xx, 101, repeated), Write, WriteString, ReadFrom, FlushError, Push, SetReadDeadline, SetWriteDeadline, EnableFullDuplex, Hijack, Context.String/Blob/Stream/Redirect} executed by a real route handler behind ServeHTTP (the request carries a drawn Content-Type of its own or none) over a simulated connection whose capability set is drawn from {ReaderFrom, Flusher|FlushError, Hijacker+Pusher+deadlines+full duplex}; for each history the byte position at which the connection starts failing is enumerated over every byte boundary (and no failure), and the failure position of the ReadFrom/Stream source likewise; after every call Status/Size/Written are compared with the connection's own log (first final status received, bytes accepted, final header or byte received), return values with the bytes accepted during the call, and the whole run is repeated with ReaderFrom toggled (answers must not depend on the fast path). Connection invariants: at most one final header, none after body bytes, bytes in order. Non-trivial: the history wrote body bytes and at least one enumerated fault fired inside it; distinct = hash of (history, capabilities).",
 		Run:  runC14, Quick: 12000, Thorough: 2000000,
 		Real:   []string{"recorder ResponseWriter (response_writer.go)", "Context helpers String/Blob/Stream/Redirect", "ServeHTTP dispatch and context pooling"},
 		Stub:   []string{"net/http connection: simulated connection with injected short writes and errors", "io.Reader sources with injected failures"},
@@ -100,7 +100,7 @@ type triple struct {
 }
 
 // runWHistory executes the history once. It returns the getter triples after each call and the first discrepancy.
-func runWHistory(w *world.World, steps []wStep, caps world.Caps, connFail int, srcFail int, fired *int, zeroAccepted *bool) ([]triple, string) {
+func runWHistory(w *world.World, steps []wStep, caps world.Caps, reqCT string, connFail int, srcFail int, fired *int, zeroAccepted *bool) ([]triple, string) {
 	conn := world.NewConn()
 	conn.FailAfter = connFail
 	var triples []triple
@@ -266,6 +266,9 @@ func runWHistory(w *world.World, steps []wStep, caps world.Caps, connFail int, s
 	}
 	log := &world.ReqLog{Inner: handler}
 	req := world.NewRequest("GET", "", "/w", "", "", log)
+	if reqCT != "" {
+		req.Header.Set("Content-Type", reqCT) // the request's own content type says nothing about the response's
+	}
 	w.R.ServeHTTP(conn.Wrap(caps), req)
 	if fail == "" {
 		if conn.Finals > 1 {
@@ -304,6 +307,7 @@ func runC14(src sim.Source, o Opts) *Result {
 	}
 	steps := genWSteps(src)
 	caps := world.NormCaps(world.Caps{ReaderFrom: sim.Bool(src, "rf"), Flusher: sim.Bool(src, "fl"), FlushError: sim.Bool(src, "fe"), Hijacker: sim.Bool(src, "group")})
+	reqCT := sim.Pick(src, "reqct", []string{"", "", "application/json", "text/html; charset=utf-8"})
 	total := 0
 	srcLen := -1
 	for _, s := range steps {
@@ -318,6 +322,7 @@ func runC14(src sim.Source, o Opts) *Result {
 	}
 	res.Case["history"] = desc
 	res.Case["capabilities"] = fmt.Sprintf("%+v", caps)
+	res.Case["request_content_type"] = reqCT
 	fired := 0
 	wroteBody := total > 0
 	// enumerate the connection's failure position over every byte boundary, and the source's
@@ -330,7 +335,7 @@ func runC14(src sim.Source, o Opts) *Result {
 			res.Checks++
 			res.inc("enumerated_fault_positions")
 			zero := false
-			tr, fail := runWHistory(w, steps, caps, k, j, &fired, &zero)
+			tr, fail := runWHistory(w, steps, caps, reqCT, k, j, &fired, &zero)
 			if fail != "" {
 				res.fail("C14/accounting", "history %v over %+v, connection fails after %d bytes, source fails after %d bytes: %s", desc, caps, k, j, fail)
 				break
@@ -339,7 +344,7 @@ func runC14(src sim.Source, o Opts) *Result {
 			alt := caps
 			alt.ReaderFrom = !alt.ReaderFrom
 			var dummy int
-			tr2, fail2 := runWHistory(w, steps, alt, k, j, &dummy, &zero)
+			tr2, fail2 := runWHistory(w, steps, alt, reqCT, k, j, &dummy, &zero)
 			if fail2 != "" {
 				res.fail("C14/accounting", "history %v over %+v, connection fails after %d bytes, source fails after %d bytes: %s", desc, alt, k, j, fail2)
 				break
@@ -356,7 +361,7 @@ func runC14(src sim.Source, o Opts) *Result {
 	}
 	res.add("faults_fired", fired)
 	res.Nontrivial = wroteBody && fired > 0
-	res.CaseKey = hashStrings(append(desc, fmt.Sprintf("%+v", caps))...)
+	res.CaseKey = hashStrings(append(desc, fmt.Sprintf("%+v", caps), reqCT)...)
 	res.Hash = hashStrings(fmt.Sprint(res.Checks), fmt.Sprint(desc), fmt.Sprint(caps))
 	res.Steps = len(steps)
 	return res
